@@ -16,6 +16,7 @@ import Rare.Proofs.C07ModeNaN
 import Rare.Model.C07NumErr
 import Rare.Proofs.C07Sqrt
 import Rare.Proofs.C07NumHist
+import Rare.Proofs.C07NumExact
 import Rare.Gen.C07
 /-!
 C07 – Aggregators compute the exact fold of their sample history.
@@ -971,6 +972,44 @@ theorem num_f64_mode_any (rev : Bool) (l s : List F64) (hne : l ≠ []) (hs : Is
         (if rev then F64.lt y m else F64.lt m y) = true)) :=
   modeF_general rev s l hs hne
 
+/-- **The float order statistics ARE the spec's nearest-rank statistics of the sample VALUES** (finite samples; with NaN or
+±Inf there is no exact value to speak of – `num_f64_order_stats` / `num_f64_mode_any` cover those).  For every sorted
+arrangement `s` of finite samples `l` (the view of any `Analyze()`, `num_f64_analyze_any_schedule`), with `q` the exact
+rational values of the samples:
+
+* read as rationals, `s` is THE sorted list of the values – the exact model's `analyze ratOps rev q` (`-0`/`+0` are the
+  one value 0; Go's float order is the order of the exact values);
+* `Median()` is the element of rank ⌊n/2⌋ of `q` in the sense of the spec (`IsRank`, `Spec/C07.lean`), `Quantile(p)` the
+  element of rank `clamp(int(float64(n)·p))`;
+* `Mode()` is a value of maximal multiplicity among the VALUES (`IsMode`), the smallest such (largest with `Reverse`).
+
+No rounding is involved: the results are samples. -/
+theorem num_f64_order_stats_exact (rev : Bool) (l s : List F64) (hne : l ≠ []) (hf : ∀ x ∈ l, x.isFinite = true)
+    (hs : IsSortedF rev s l) :
+    let q := l.map F64.toRat
+    s.map F64.toRat = analyze ratOps rev q ∧
+    IsRank rev q (l.length / 2) (medianF s).toRat ∧
+    (∀ p : F64, ∃ x, quantileF s p = .ok x ∧ IsRank rev q (clampIdx l.length (quantileIdx l.length p)) x.toRat) ∧
+    IsMode q (modeF s).toRat ∧
+    (∀ y, q.count y = q.count (modeF s).toRat → y ≠ (modeF s).toRat →
+      if rev then y < (modeF s).toRat else (modeF s).toRat < y) := by
+  intro q
+  have hso := isSortedOf_map_toRat rev l s hf hs
+  have hmap := sorted_map_toRat rev l s hf hs
+  obtain ⟨_, ⟨x, hx, hm, _⟩, hq, _⟩ := num_f64_order_stats rev l s hne hs
+  have hqne : q ≠ [] := by intro e; exact hne (List.map_eq_nil_iff.mp e)
+  have hfs : ∀ x ∈ s, x.isFinite = true := fun x hx => hf x (hs.1.mem_iff.mp hx)
+  have hmode : (modeF s).toRat = mode 0 (fun a b => decide (a = b)) (analyze ratOps rev q) := by
+    rw [modeF_toRat s hfs, hmap]
+  obtain ⟨m1, m2, _⟩ := mode_spec rev q hqne
+  refine ⟨hmap, ⟨_, hso, ?_⟩, ?_, ?_, ?_⟩
+  · rw [List.getElem?_map, hx, hm]; rfl
+  · intro p
+    obtain ⟨y, hy, hqy, _⟩ := hq p
+    exact ⟨y, hqy, _, hso, by rw [List.getElem?_map, hy]; rfl⟩
+  · rw [hmode]; exact m1
+  · rw [hmode]; exact m2
+
 /-- A SUFFICIENT EXACTNESS CONDITION.  If the samples are finite and every intermediate value of the exact
 (rational) Welford recurrence on their values – `x − mean`, `(x − mean)/k`, the new mean, `x − mean'`, the product
 and the new `M2` – is a float (`AllRep`; decidable on concrete lists: `allRepB`), then no operation rounds: the float
@@ -1450,6 +1489,10 @@ example : (modeF [F64.nan, F64.zero true, F64.zero false, F64.ofInt 1]).isNaN = 
 example : IsSortedF false [F64.nan, F64.ofInt 1, F64.ofInt 2] [F64.ofInt 1, F64.nan, F64.ofInt 2] ∧
     IsSortedF true [F64.ofInt 2, F64.ofInt 1, F64.nan] [F64.ofInt 1, F64.nan, F64.ofInt 2] :=
   ⟨⟨by decide +kernel, by decide +kernel⟩, ⟨by decide +kernel, by decide +kernel⟩⟩
+/-- hypotheses of `num_f64_order_stats_exact`: finite samples with both zeros, and a sorted arrangement of them -/
+example : (∀ x ∈ [F64.ofInt 1, F64.zero true, F64.zero false], x.isFinite = true) ∧
+    IsSortedF true [F64.ofInt 1, F64.zero false, F64.zero true] [F64.ofInt 1, F64.zero true, F64.zero false] :=
+  ⟨by decide +kernel, by decide +kernel, by decide +kernel⟩
 example : IsSortedF false [F64.nan, F64.zero true, F64.zero false, F64.ofInt 1] exMixed ∧
     IsSortedF false [F64.nan, F64.zero false, F64.zero true, F64.ofInt 1] exMixed := by
   exact ⟨⟨by decide +kernel, by decide +kernel⟩, ⟨by decide +kernel, by decide +kernel⟩⟩
